@@ -2,7 +2,7 @@
 """import_seed.py <ID> <variant> "<needs>" : copy a verified seeded change from /tmp/mut into /verif/seeded/<ID>-<variant>/"""
 import sys, os, json, shutil, re
 ID, V, needs = sys.argv[1], sys.argv[2], sys.argv[3]
-src = f'/tmp/mut/{ID}'; dst = f'/verif/seeded/{ID}-{V}'
+src = os.environ.get('MUT', '/tmp/mut') + f'/{ID}'; dst = f'/verif/seeded/{ID}-{V}'
 os.makedirs(dst, exist_ok=True)
 shutil.copy(f'{src}/patch_{V}.diff', f'{dst}/patch.diff'); shutil.copy(f'{src}/demo_{V}.cpp', f'{dst}/demo.cpp')
 log = open(f'{src}/verify_{V}.log').read(); res = re.findall(r'^RESULT (.*)$', log, re.M)[-1]
